@@ -652,3 +652,550 @@ theorem expectOuts_returned (init : σ) (d : σ × List α) : ∀ (rs : List (σ
     exact this
 
 end Noir.SeqLoop
+
+/-! ## Replay / Iterate loop heads -/
+namespace Noir.Replay
+variable {α : Type}
+
+def acts (c : List (Elem α)) : List (Act α) := c.flatMap fun e => if e.isFar then [.lock, .emit e] else [.emit e]
+
+theorem emitted_acts (c : List (Elem α)) : emitted (acts c) = c := by
+  induction c with
+  | nil => rfl
+  | cons e es ih =>
+    simp only [acts, List.flatMap_cons, emitted] at ih ⊢
+    cases h : e.isFar <;> simp [List.filterMap_append, ih]
+
+theorem emitted_append (a b : List (Act α)) : emitted (a ++ b) = emitted a ++ emitted b := by
+  simp [emitted, List.filterMap_append]
+
+/-- first round: the input is forwarded and recorded -/
+theorem run_input (xs : List α) : ∀ (st : St α), st.inputFinished = false →
+    run st (xs.map (fun x => Ev.input (Elem.item x))) =
+      (⟨st.content ++ xs.map Elem.item, false⟩, xs.map (fun x => Act.emit (Elem.item x))) := by
+  induction xs with
+  | nil => intro st h; cases st; simp_all [run]
+  | cons x xs ih =>
+    intro st h
+    simp only [List.map_cons, run, step, h]
+    rw [ih _ rfl]
+    simp
+end Noir.Replay
+
+namespace Noir.Iterate
+variable {α : Type}
+
+def acts (c : List (Elem α)) : List (Act α) := c.flatMap fun e => if e.isFar then [.lock, .emit e] else [.emit e]
+
+theorem emitted_acts (c : List (Elem α)) : emitted (acts c) = c := by
+  induction c with
+  | nil => rfl
+  | cons e es ih =>
+    simp only [acts, List.flatMap_cons, emitted] at ih ⊢
+    cases h : e.isFar <;> simp [List.filterMap_append, ih]
+
+theorem outputs_acts (c : List (Elem α)) : outputs (acts c) = [] := by
+  induction c with
+  | nil => rfl
+  | cons e es ih =>
+    simp only [acts, List.flatMap_cons, outputs] at ih ⊢
+    cases h : e.isFar <;> simp [List.filterMap_append, ih]
+
+theorem pump_content (C : List (Elem α)) : ∀ (fuel : Nat) (st : St α),
+    st.waiting = false → st.inputFinished = true → st.content = C →
+    pump (fuel + C.length) st =
+      ((pump fuel { st with content := [] }).1, acts C ++ (pump fuel { st with content := [] }).2) := by
+  induction C with
+  | nil =>
+    intro fuel st _ _ hc
+    have : { st with content := [] } = st := by cases st; simp_all
+    simp [this, acts]
+  | cons e es ih =>
+    intro fuel st hw hi hc
+    show pump ((fuel + es.length) + 1) st = _
+    have hp : pstep st = some ({ st with content := es }, if e.isFar then [.lock, .emit e] else [.emit e]) := by
+      simp [pstep, hw, hi, hc]
+    simp only [pump, hp]
+    rw [ih fuel { st with content := es } hw hi rfl]
+    simp [acts, List.append_assoc]
+
+
+theorem pump_step (n : Nat) (st st' : St α) (a : List (Act α)) (h : pstep st = some (st', a)) :
+    pump (n + 1) st = ((pump n st').1, a ++ (pump n st').2) := by
+  simp [pump, h]
+
+theorem pump_blocked (n : Nat) (st : St α) (h : pstep st = none) : pump n st = (st, []) := by
+  cases n <;> simp [pump, h]
+
+/-- state between two rounds: the input has ended, everything of the round was handed to the body -/
+def mid : St α := ⟨[], [], [], true, false, []⟩
+
+theorem mid_blocked : pstep (mid : St α) = none := by simp [pstep, mid]
+
+/-- after the swap and the leader's message: the round's feedback is handed to the body again
+    (`c = true`) or sent to the output (`c = false`) -/
+theorem pump_waiting (F : List (Elem α)) (c : Bool) (n : Nat) :
+    pump (F.length + 2 + n) (⟨F, [], [], true, true, [c]⟩ : St α) =
+      if c then (mid, .sync :: acts F) else (init, [.sync, .out F]) := by
+  cases c with
+  | true =>
+    have e : F.length + 2 + n = (n + 1 + F.length) + 1 := by omega
+    rw [e, pump_step _ _ ⟨F, [], [], true, false, []⟩ [.sync] (by simp [pstep])]
+    rw [pump_content F (n + 1) _ rfl rfl rfl]
+    rw [pump_blocked _ _ (by simp [pstep])]
+    simp [mid]
+  | false =>
+    have e : F.length + 2 + n = (F.length + 1 + n) + 1 := by omega
+    rw [e, pump_step _ _ ⟨[], [], [], false, false, []⟩ [.sync, .out F] (by simp [pstep])]
+    rw [pump_blocked _ _ (by simp [pstep])]
+    simp [init]
+
+theorem round_feedback_then_state (F : List (Elem α)) (hF : (F.getLast?.map Elem.isFar).getD false = true) (c : Bool) :
+    run mid [.feedback F, .state c] =
+      if c then (mid, .sync :: acts F) else (init, [.sync, .out F]) := by
+  have h1 : step (mid : St α) (.feedback F) = (⟨F, [], [], true, true, []⟩, []) := by
+    simp only [step, apply, mid, size, List.nil_append, List.length_nil]
+    rw [pump_step _ _ ⟨F, [], [], true, true, []⟩ [] (by simp [pstep, hF])]
+    rw [pump_blocked _ _ (by simp [pstep])]
+    simp
+  have h2 : step (⟨F, [], [], true, true, []⟩ : St α) (.state c) =
+      if c then (mid, .sync :: acts F) else (init, [.sync, .out F]) := by
+    simp only [step, apply, size, List.nil_append, List.length_nil, List.length_cons]
+    have e : F.length + 0 + 2 * 0 + (0 + 1) + 3 = F.length + 2 + 2 := by omega
+    rw [e, pump_waiting F c 2]
+  simp only [run, h1, h2, List.nil_append]
+  cases c <;> simp
+
+/-- the leader's message may overtake the last feedback batch: it waits in its channel -/
+theorem round_state_then_feedback (F : List (Elem α)) (hF : (F.getLast?.map Elem.isFar).getD false = true) (c : Bool) :
+    run mid [.state c, .feedback F] =
+      if c then (mid, .sync :: acts F) else (init, [.sync, .out F]) := by
+  have h1 : step (mid : St α) (.state c) = (⟨[], [], [], true, false, [c]⟩, []) := by
+    simp only [step, apply, mid, List.nil_append]
+    rw [pump_blocked _ _ (by simp [pstep])]
+  have h2 : step (⟨[], [], [], true, false, [c]⟩ : St α) (.feedback F) =
+      if c then (mid, .sync :: acts F) else (init, [.sync, .out F]) := by
+    simp only [step, apply, size, List.nil_append, List.length_nil, List.length_cons]
+    have e : 0 + 0 + 2 * F.length + (0 + 1) + 3 = (F.length + 2 + (F.length + 1)) + 1 := by omega
+    rw [e, pump_step _ _ ⟨F, [], [], true, true, [c]⟩ [] (by simp [pstep, hF])]
+    rw [pump_waiting F c (F.length + 1)]
+    cases c <;> simp
+  simp only [run, h1, h2, List.nil_append]
+  cases c <;> simp
+
+end Noir.Iterate
+
+/-! ## Nested instance: the positive invariant -/
+namespace Noir.LoopProto.Nested
+
+/-- every host's outer state cell holds the broadcast of the outer round its head is in; no stale read yet -/
+def Good (s : NSt) : Prop := ∀ x ∈ s.hosts, x.oIdx = x.ko ∧ x.ofb = x.ko ∧ x.stale = false
+
+/-- the data a body replica accepts comes from its own host (no shuffle inside the inner body) -/
+def localOnly : Act → Bool
+  | .bodyPass h src => h == src
+  | _ => true
+
+theorem good_setHost (s : NSt) (h : Nat) (x : HostSt) (g : Good s) (hx : x.oIdx = x.ko ∧ x.ofb = x.ko ∧ x.stale = false) :
+    Good (setHost s h x) := by
+  intro y hy
+  simp only [setHost] at hy
+  rcases List.mem_or_eq_of_mem_set hy with h1 | h1
+  · exact g y h1
+  · subst h1; exact hx
+
+theorem setHost_length (s : NSt) (h : Nat) (x : HostSt) : (setHost s h x).hosts.length = s.hosts.length := by
+  simp [setHost]
+
+theorem good_step (I : Nat) (fixed : Bool) (s s' : NSt) (a : Act) (hs : step I fixed s a = some s')
+    (g : Good s) (hl : localOnly a = true ∨ s.hosts.length ≤ 1) :
+    Good s' ∧ s'.hosts.length = s.hosts.length := by
+  cases a with
+  | headFar h =>
+    simp only [step, Option.bind_eq_bind, Option.bind_eq_some_iff] at hs
+    obtain ⟨x, hx, hif⟩ := hs
+    split at hif
+    · simp only [Option.some.injEq] at hif; subst hif
+      exact ⟨good_setHost s h _ g (g x (List.mem_of_getElem? hx)), setHost_length _ _ _⟩
+    · simp at hif
+  | bodyPass h src =>
+    simp only [step, Option.bind_eq_bind, Option.bind_eq_some_iff] at hs
+    obtain ⟨x, hx, p, hp, hif⟩ := hs
+    split at hif
+    · simp only [Option.some.injEq] at hif; subst hif
+      have hxp : p = x := by
+        rcases hl with h1 | h1
+        · simp only [localOnly, beq_iff_eq] at h1; subst h1; rw [hx] at hp; exact (Option.some.inj hp).symm
+        · have h2 := (List.getElem?_eq_some_iff.mp hx).1
+          have h3 := (List.getElem?_eq_some_iff.mp hp).1
+          have : h = src := by omega
+          subst this; rw [hx] at hp; exact (Option.some.inj hp).symm
+      have gx := g x (List.mem_of_getElem? hx)
+      refine ⟨good_setHost s h _ g ⟨gx.1, gx.2.1, ?_⟩, setHost_length _ _ _⟩
+      subst hxp
+      simp [gx.1, gx.2.2]
+    · simp at hif
+  | bodyFar h =>
+    simp only [step, Option.bind_eq_bind, Option.bind_eq_some_iff] at hs
+    obtain ⟨x, hx, hif⟩ := hs
+    split at hif
+    · simp only [Option.some.injEq] at hif; subst hif
+      exact ⟨good_setHost s h _ g (g x (List.mem_of_getElem? hx)), setHost_length _ _ _⟩
+    · simp at hif
+  | innerBroadcast =>
+    simp only [step] at hs
+    split at hs
+    · simp only [Option.some.injEq] at hs; subst hs; exact ⟨g, rfl⟩
+    · simp at hs
+  | outerBroadcast =>
+    simp only [step] at hs
+    split at hs
+    · simp only [Option.some.injEq] at hs; subst hs; exact ⟨g, rfl⟩
+    · simp at hs
+  | headRecvInner h =>
+    simp only [step, Option.bind_eq_bind, Option.bind_eq_some_iff] at hs
+    obtain ⟨x, hx, hif⟩ := hs
+    have gx := g x (List.mem_of_getElem? hx)
+    split at hif
+    · split at hif <;>
+      · simp only [Option.some.injEq] at hif; subst hif
+        exact ⟨good_setHost s h _ g gx, setHost_length _ _ _⟩
+    · simp at hif
+  | headRecvOuter h =>
+    simp only [step, Option.bind_eq_bind, Option.bind_eq_some_iff] at hs
+    obtain ⟨x, hx, hif⟩ := hs
+    have gx := g x (List.mem_of_getElem? hx)
+    split at hif
+    · rename_i hc
+      simp only [Option.some.injEq] at hif; subst hif
+      exact ⟨good_setHost s h _ g ⟨by simp [gx.2.1], by simp [gx.2.1], gx.2.2⟩, setHost_length _ _ _⟩
+    · simp at hif
+
+theorem good_init (H : Nat) : Good (ninit H) := by
+  intro x hx
+  simp only [ninit, List.mem_replicate] at hx
+  rw [hx.2]; simp [hostInit]
+
+theorem good_exec (I : Nat) (fixed : Bool) (sched : List Act) : ∀ (s s' : NSt),
+    exec I fixed s sched = some s' → Good s →
+    ((∀ a ∈ sched, localOnly a = true) ∨ s.hosts.length ≤ 1) → Good s' := by
+  induction sched with
+  | nil => intro s s' h g _; simp [exec] at h; subst h; exact g
+  | cons a as ih =>
+    intro s s' h g hl
+    simp only [exec] at h
+    cases hs : step I fixed s a with
+    | none => simp [hs] at h
+    | some s1 =>
+      simp only [hs] at h
+      have := good_step I fixed s s1 a hs g (by
+        rcases hl with h1 | h1
+        · exact Or.inl (h1 a (by simp))
+        · exact Or.inr h1)
+      exact ih s1 s' h this.1 (by
+        rcases hl with h1 | h1
+        · exact Or.inl (fun b hb => h1 b (by simp [hb]))
+        · exact Or.inr (by rw [this.2]; exact h1))
+
+theorem good_no_stale (s : NSt) (g : Good s) : anyStale s = false := by
+  simp only [anyStale, List.any_eq_false]
+  intro x hx
+  simp [(g x hx).2.2]
+
+end Noir.LoopProto.Nested
+
+/-! ## The data-carrying refinement of LoopProto -/
+namespace Noir.LoopProto
+
+variable {Host Head Body End σ δ α : Type} [DecidableEq Host] [DecidableEq Head] [DecidableEq Body] [DecidableEq End]
+
+theorem dstep_base (L : Layout Host Head Body End) (D : DataCfg Body End σ δ α)
+    {s s' : DSt Host Head Body End σ δ} (st : DStep L D s s') : Step L s.base s'.base := by
+  cases st with
+  | headFar b' r h hb => subst hb; exact Step.headFar s.base r h
+  | bodyPass b' b h1 h2 hb => subst hb; exact Step.bodyPass s.base b h1 h2
+  | bodyFar b' b h hp hb => subst hb; exact Step.bodyFar s.base b h
+  | endSend b' e h hb => subst hb; exact Step.endSend s.base e h
+  | leaderRecv b' e d h1 h2 hd hb => subst hb; exact Step.leaderRecv s.base e h1 h2
+  | leaderBroadcast b' h hb => subst hb; exact Step.leaderBroadcast s.base h
+  | headRecv b' r h1 h2 hb => subst hb; exact Step.headRecv s.base r h1 h2
+  | barrier b' h hall hb => subst hb; exact Step.barrier s.base h hall
+  | resume b' r h hb => subst hb; exact Step.resume s.base r h
+
+theorem dreach_base (L : Layout Host Head Body End) (D : DataCfg Body End σ δ α)
+    {s : DSt Host Head Body End σ δ} (h : DReachable L D s) : Reachable L s.base := by
+  induction h with
+  | init => exact Reachable.init
+  | step _ st ih => exact Reachable.step ih (dstep_base L D st)
+
+/-- I3 on the invariant -/
+theorem sidx_eq_fars (L : Layout Host Head Body End) (e0 : End) {s : St Host Head Body End} (inv : Inv L s)
+    (b : Body) (hp : s.passed b = true) : s.sidx (L.hostOfBody b) = s.fars b := by
+  have h1 := inv.passed_sync b hp
+  have h2 := inv.sidx_fb (L.hostOfBody b)
+  have h3 := inv.fb_le_K (L.leaderOf (L.hostOfBody b))
+  have := inv.K_le_got e0
+  have := inv.got_le_sent e0
+  have := inv.sent_le_fars e0 b
+  have ha := inv.syncs_a (L.hostOfBody b)
+  have hb := inv.syncs_b (L.hostOfBody b)
+  cases hph : s.phase (L.leaderOf (L.hostOfBody b)) with
+  | emitting => have := ha (Or.inl hph); omega
+  | waiting => have := ha (Or.inr hph); omega
+  | atBarrier => have := hb (Or.inl hph); omega
+  | released => have := hb (Or.inr hph); omega
+
+/-- everything is at most one round ahead of the leader -/
+theorem chain_le (L : Layout Host Head Body End) (r0 : Head) {s : St Host Head Body End} (inv : Inv L s) :
+    (∀ b, s.fars b ≤ s.K + 1) ∧ (∀ e b, s.sent e ≤ s.fars b) := by
+  refine ⟨fun b => ?_, inv.sent_le_fars⟩
+  have c2 := inv.fars_le_round b r0
+  have c4 := inv.fb_le_K r0
+  by_cases hp : s.phase r0 = .waiting
+  · have := (inv.round_fb r0).1 hp; omega
+  · have := (inv.round_fb r0).2 hp; omega
+
+/-- the leader's fold in arrival order equals the fold in the order of `ends` (right-commutative `global`) -/
+theorem foldr_arrival (g : σ → δ → σ) (hg : ∀ s a b, g (g s a) b = g (g s b) a) (dv : End → δ) (S : σ)
+    (recvd ends : List End) (hp : recvd.Perm ends) :
+    recvd.foldr (fun e T => g T (dv e)) S = (ends.map dv).foldl g S := by
+  have h1 : recvd.foldr (fun e T => g T (dv e)) S = recvd.reverse.foldl (fun T e => g T (dv e)) S := by
+    rw [List.foldl_reverse]
+  rw [h1, List.foldl_map]
+  exact Leader.foldl_perm (fun T e => g T (dv e)) (fun s a b => hg s (dv a) (dv b))
+    ((List.reverse_perm recvd).trans hp) S
+
+structure DInv (L : Layout Host Head Body End) (D : DataCfg Body End σ δ α)
+    (s : DSt Host Head Body End σ δ) : Prop where
+  hist_seq : ∀ j, j ≤ s.base.K → s.hist j = seqS L D j
+  cell_hist : ∀ h, s.cell h = s.hist (s.base.sidx h)
+  read_hist : ∀ b, s.base.passed b = true → s.readSt b = s.hist (s.base.fars b)
+  dlast_hist : ∀ b, 1 ≤ s.base.fars b → s.dlast b = D.dval b (s.hist (s.base.fars b - 1))
+  dq_hist : ∀ e, s.base.got e < s.base.sent e → s.dq e = some (D.dval (D.bodyOf e) (s.hist s.base.K))
+  lstate_fold : s.lstate =
+    s.recvd.foldr (fun e T => D.loop.global T (D.dval (D.bodyOf e) (s.hist s.base.K))) (s.hist s.base.K)
+  recvd_nodup : s.recvd.Nodup
+  recvd_mem : ∀ e, e ∈ s.recvd ↔ s.base.got e = s.base.K + 1
+
+theorem dinv_init (L : Layout Host Head Body End) (D : DataCfg Body End σ δ α) :
+    DInv L D (dinit D : DSt Host Head Body End σ δ) := by
+  refine ⟨?_, ?_, ?_, ?_, ?_, ?_, ?_, ?_⟩ <;> simp [dinit, init, seqS]
+
+theorem seqS_succ (L : Layout Host Head Body End) (D : DataCfg Body End σ δ α) (k : Nat) :
+    seqS L D (k + 1) =
+      (D.loop.cond ((L.ends.map fun e => D.dval (D.bodyOf e) (seqS L D k)).foldl D.loop.global (seqS L D k))).2 := by
+  simp only [seqS, SeqLoop.foldRound, SeqLoop.deltas, List.map_map]
+  rfl
+
+theorem dinv_step (L : Layout Host Head Body End) (D : DataCfg Body End σ δ α)
+    (hcomm : ∀ s a b, D.loop.global (D.loop.global s a) b = D.loop.global (D.loop.global s b) a)
+    (r0 : Head) (b0 : Body) (e0 : End)
+    {s s' : DSt Host Head Body End σ δ} (rb : Reachable L s.base) (inv : DInv L D s)
+    (st : DStep L D s s') : DInv L D s' := by
+  have bi := inv_reachable L r0 b0 rb
+  have bi' := inv_reachable L r0 b0 (Reachable.step rb (dstep_base L D st))
+  have hch := chain_le L r0 bi
+  cases st with
+  | headFar b' r h hb =>
+    subst hb
+    exact ⟨inv.hist_seq, inv.cell_hist, inv.read_hist, inv.dlast_hist, inv.dq_hist, inv.lstate_fold,
+      inv.recvd_nodup, inv.recvd_mem⟩
+  | barrier b' h hall hb =>
+    subst hb
+    exact ⟨inv.hist_seq, inv.cell_hist, inv.read_hist, inv.dlast_hist, inv.dq_hist, inv.lstate_fold,
+      inv.recvd_nodup, inv.recvd_mem⟩
+  | resume b' r h hb =>
+    subst hb
+    exact ⟨inv.hist_seq, inv.cell_hist, inv.read_hist, inv.dlast_hist, inv.dq_hist, inv.lstate_fold,
+      inv.recvd_nodup, inv.recvd_mem⟩
+  | bodyPass b' b h1 h2 hb =>
+    subst hb
+    refine ⟨inv.hist_seq, inv.cell_hist, ?_, inv.dlast_hist, inv.dq_hist, inv.lstate_fold,
+      inv.recvd_nodup, inv.recvd_mem⟩
+    intro x hx
+    show upd s.readSt b (s.cell (L.hostOfBody b)) x = s.hist (s.base.fars x)
+    by_cases hxb : x = b
+    · subst hxb
+      rw [upd_same, inv.cell_hist]
+      have := sidx_eq_fars L e0 bi' x (by show upd s.base.passed x true x = true; simp)
+      exact congrArg s.hist this
+    · rw [upd_other _ _ _ _ hxb]
+      have : s.base.passed x = true := by
+        have : upd s.base.passed b true x = true := hx
+        rwa [upd_other _ _ _ _ hxb] at this
+      exact inv.read_hist x this
+  | bodyFar b' b h hp hb =>
+    subst hb
+    refine ⟨inv.hist_seq, inv.cell_hist, ?_, ?_, inv.dq_hist, inv.lstate_fold, inv.recvd_nodup, inv.recvd_mem⟩
+    · intro x hx
+      show s.readSt x = s.hist (upd s.base.fars b (s.base.fars b + 1) x)
+      have hx' : upd s.base.passed b false x = true := hx
+      by_cases hxb : x = b
+      · subst hxb; simp at hx'
+      · rw [upd_other _ _ _ _ hxb] at hx' ⊢; exact inv.read_hist x hx'
+    · intro x hx
+      show upd s.dlast b (D.dval b (s.readSt b)) x = D.dval x (s.hist (upd s.base.fars b (s.base.fars b + 1) x - 1))
+      by_cases hxb : x = b
+      · subst hxb
+        rw [upd_same, upd_same, inv.read_hist x hp]
+        simp
+      · have hx' : 1 ≤ upd s.base.fars b (s.base.fars b + 1) x := hx
+        rw [upd_other _ _ _ _ hxb] at hx' ⊢
+        rw [upd_other _ _ _ _ hxb]; exact inv.dlast_hist x hx'
+  | endSend b' e h hb =>
+    subst hb
+    refine ⟨inv.hist_seq, inv.cell_hist, inv.read_hist, inv.dlast_hist, ?_, inv.lstate_fold, inv.recvd_nodup, inv.recvd_mem⟩
+    intro x hx
+    show upd s.dq e (some (s.dlast (D.bodyOf e))) x = some (D.dval (D.bodyOf x) (s.hist s.base.K))
+    by_cases hxe : x = e
+    · subst hxe
+      rw [upd_same]
+      have h1 := h (D.bodyOf x)
+      have h2 := hch.1 (D.bodyOf x)
+      have h3 := bi.K_le_got x
+      have h4 := bi.got_le_sent x
+      rw [inv.dlast_hist (D.bodyOf x) (by omega)]
+      have : s.base.fars (D.bodyOf x) - 1 = s.base.K := by omega
+      rw [this]
+    · have hx' : s.base.got x < upd s.base.sent e (s.base.sent e + 1) x := hx
+      rw [upd_other _ _ _ _ hxe] at hx' ⊢
+      exact inv.dq_hist x hx'
+  | leaderRecv b' e d h1 h2 hd hb =>
+    subst hb
+    have hd' : d = D.dval (D.bodyOf e) (s.hist s.base.K) := by
+      have := inv.dq_hist e h1; rw [hd] at this; exact Option.some.inj this
+    have c1 := hch.2 e b0
+    have c2 := hch.1 b0
+    have c3 := bi.K_le_got e
+    have hge : s.base.got e = s.base.K := by omega
+    refine ⟨inv.hist_seq, inv.cell_hist, inv.read_hist, inv.dlast_hist, ?_, ?_, ?_, ?_⟩
+    · intro x hx
+      show upd s.dq e none x = _
+      have hx' : upd s.base.got e (s.base.got e + 1) x < s.base.sent x := hx
+      by_cases hxe : x = e
+      · subst hxe; rw [upd_same] at hx'; omega
+      · rw [upd_other _ _ _ _ hxe] at hx' ⊢; exact inv.dq_hist x hx'
+    · show D.loop.global s.lstate d = List.foldr _ _ (e :: s.recvd)
+      rw [List.foldr_cons, ← inv.lstate_fold, hd']
+    · show (e :: s.recvd).Nodup
+      rw [List.nodup_cons]
+      refine ⟨fun hm => ?_, inv.recvd_nodup⟩
+      have := (inv.recvd_mem e).1 hm; omega
+    · intro x
+      show x ∈ e :: s.recvd ↔ upd s.base.got e (s.base.got e + 1) x = s.base.K + 1
+      by_cases hxe : x = e
+      · subst hxe; rw [upd_same]; simp; omega
+      · rw [upd_other _ _ _ _ hxe, List.mem_cons]
+        constructor
+        · rintro (h | h)
+          · exact absurd h hxe
+          · exact (inv.recvd_mem x).1 h
+        · intro h; exact Or.inr ((inv.recvd_mem x).2 h)
+  | leaderBroadcast b' h hb =>
+    subst hb
+    have hall : ∀ e, s.base.got e = s.base.K + 1 := by
+      intro e
+      have h1 : s.base.K + 1 ≤ s.base.got e := bi'.K_le_got e
+      have h2 := bi.got_le_K1 e
+      omega
+    have hperm : s.recvd.Perm L.ends := by
+      rw [List.perm_ext_iff_of_nodup inv.recvd_nodup L.ends_nodup]
+      intro e
+      exact ⟨fun _ => L.ends_all e, fun _ => (inv.recvd_mem e).2 (hall e)⟩
+    have hv : (D.loop.cond s.lstate).2 = seqS L D (s.base.K + 1) := by
+      rw [seqS_succ, inv.lstate_fold, inv.hist_seq s.base.K (Nat.le_refl _)]
+      rw [foldr_arrival D.loop.global hcomm (fun e => D.dval (D.bodyOf e) (seqS L D s.base.K)) _ _ _ hperm]
+    have hne : ∀ j, j ≤ s.base.K → upd s.hist (s.base.K + 1) (D.loop.cond s.lstate).2 j = s.hist j :=
+      fun j hj => upd_other _ _ _ _ (by omega)
+    refine ⟨?_, ?_, ?_, ?_, ?_, ?_, List.nodup_nil, ?_⟩
+    · intro j hj
+      show upd s.hist (s.base.K + 1) _ j = _
+      have hj' : j ≤ s.base.K + 1 := hj
+      by_cases hjk : j = s.base.K + 1
+      · subst hjk; rw [upd_same]; exact hv
+      · rw [hne j (by omega)]; exact inv.hist_seq j (by omega)
+    · intro h'
+      show s.cell h' = upd s.hist (s.base.K + 1) _ (s.base.sidx h')
+      have h1 := bi.sidx_fb h'
+      have h2 := bi.fb_le_K (L.leaderOf h')
+      rw [hne _ (by omega)]; exact inv.cell_hist h'
+    · intro b hp
+      show s.readSt b = upd s.hist (s.base.K + 1) _ (s.base.fars b)
+      have h0 := sidx_eq_fars L e0 bi b hp
+      have h1 := bi.sidx_fb (L.hostOfBody b)
+      have h2 := bi.fb_le_K (L.leaderOf (L.hostOfBody b))
+      rw [hne _ (by omega)]; exact inv.read_hist b hp
+    · intro b hb1
+      show s.dlast b = D.dval b (upd s.hist (s.base.K + 1) _ (s.base.fars b - 1))
+      have := hch.1 b
+      rw [hne _ (by omega)]; exact inv.dlast_hist b hb1
+    · intro e he
+      have he' : s.base.got e < s.base.sent e := he
+      have := hch.2 e b0
+      have := hch.1 b0
+      have := hall e
+      omega
+    · show (D.loop.cond s.lstate).2 = List.foldr _ (upd s.hist (s.base.K + 1) _ (s.base.K + 1)) []
+      simp
+    · intro e
+      show e ∈ [] ↔ s.base.got e = s.base.K + 1 + 1
+      have := hall e
+      simp; omega
+  | headRecv b' r h1 h2 hb =>
+    subst hb
+    refine ⟨inv.hist_seq, ?_, inv.read_hist, inv.dlast_hist, inv.dq_hist, inv.lstate_fold, inv.recvd_nodup, inv.recvd_mem⟩
+    intro h'
+    show (if r = L.leaderOf (L.hostOfHead r) then upd s.cell (L.hostOfHead r) (s.hist (s.base.fb r + 1)) else s.cell) h' =
+      s.hist ((if r = L.leaderOf (L.hostOfHead r) then upd s.base.sidx (L.hostOfHead r) (s.base.fb r + 1) else s.base.sidx) h')
+    by_cases hl : r = L.leaderOf (L.hostOfHead r)
+    · rw [if_pos hl, if_pos hl]
+      by_cases hh : h' = L.hostOfHead r
+      · subst hh; rw [upd_same, upd_same]
+      · rw [upd_other _ _ _ _ hh, upd_other _ _ _ _ hh]; exact inv.cell_hist h'
+    · rw [if_neg hl, if_neg hl]; exact inv.cell_hist h'
+
+theorem dinv_reachable (L : Layout Host Head Body End) (D : DataCfg Body End σ δ α)
+    (hcomm : ∀ s a b, D.loop.global (D.loop.global s a) b = D.loop.global (D.loop.global s b) a)
+    (r0 : Head) (b0 : Body) (e0 : End)
+    {s : DSt Host Head Body End σ δ} (h : DReachable L D s) : DInv L D s := by
+  induction h with
+  | init => exact dinv_init L D
+  | step hr st ih => exact dinv_step L D hcomm r0 b0 e0 (dreach_base L D hr) ih st
+
+
+/-- the states of the sequential `rounds` are the `seqS`, whenever `split` distributes a round's output
+    the way the replicas produce it -/
+theorem rounds_states_eq_seqS (L : Layout Host Head Body End) (D : DataCfg Body End σ δ α)
+    (split : List α → List (List α)) (input : List α)
+    (hsplit : ∀ S, split (D.loop.body S input) = L.ends.map fun e => D.loop.body S (D.part (D.bodyOf e))) :
+    ∀ (k rem k0 : Nat) (p : σ × List α),
+      (SeqLoop.rounds D.loop false split rem (seqS L D k0) input)[k]? = some p → p.1 = seqS L D (k0 + k + 1) := by
+  intro k
+  induction k with
+  | zero =>
+    intro rem k0 p hp
+    have hfirst : seqS L D (k0 + 1) =
+        (D.loop.cond (SeqLoop.foldRound D.loop (seqS L D k0) (split (D.loop.body (seqS L D k0) input)))).2 := by
+      rw [hsplit]; rfl
+    cases rem with
+    | zero => simp [SeqLoop.rounds] at hp; rw [← hp, hfirst]
+    | succ rem =>
+      rw [SeqLoop.rounds] at hp
+      split at hp <;> (simp at hp; rw [← hp, hfirst])
+  | succ k ih =>
+    intro rem k0 p hp
+    have hfirst : seqS L D (k0 + 1) =
+        (D.loop.cond (SeqLoop.foldRound D.loop (seqS L D k0) (split (D.loop.body (seqS L D k0) input)))).2 := by
+      rw [hsplit]; rfl
+    cases rem with
+    | zero => simp [SeqLoop.rounds] at hp
+    | succ rem =>
+      rw [SeqLoop.rounds] at hp
+      split at hp
+      · simp only [List.getElem?_cons_succ, Bool.false_eq_true, if_false] at hp
+        rw [← hfirst] at hp
+        have := ih rem (k0 + 1) p hp
+        rw [this]; congr 1; omega
+      · simp at hp
+
+end Noir.LoopProto
